@@ -10,10 +10,12 @@ import (
 	"context"
 	"errors"
 	"fmt"
-	"log/slog"
 	"io"
+	"log/slog"
 	"sort"
 	"sync"
+	"testing"
+	"testing/synctest"
 	"time"
 
 	"github.com/cespare/xxhash/v2"
@@ -41,11 +43,13 @@ const (
 	OK Outcome = iota
 	Recoverable
 	Unrecoverable
-	Hang // block until the context is done, then report a recoverable error
+	Hang   // block until the context is done, then report a recoverable error
 	SlowOK // take 3 virtual seconds, then succeed (or fail recoverably if the context ends first)
 )
 
-func (o Outcome) String() string { return [...]string{"ok", "recoverable", "unrecoverable", "hang", "slowok"}[o] }
+func (o Outcome) String() string {
+	return [...]string{"ok", "recoverable", "unrecoverable", "hang", "slowok"}[o]
+}
 
 // IntSpec describes one scripted integration of a receiver.
 type IntSpec struct {
@@ -65,19 +69,19 @@ type AlertObs struct {
 
 // Rec is one raw observation.
 type Rec struct {
-	Kind     string // publish | flush | query | notify | log | flushend
-	T        int64  // virtual clock (unix ns) when observed
-	GKey     string
-	Recv     string // receiver name
-	I        int    // integration index within the receiver
-	Tau      int64  // flush: notify.Now(ctx)
-	FlushID  uint64
-	Alerts   []AlertObs
-	Outcome  Outcome
-	Reason   string
-	Firing   []uint64
-	Resolved []uint64
-	Ok       bool
+	Kind       string // publish | flush | query | notify | log | flushend
+	T          int64  // virtual clock (unix ns) when observed
+	GKey       string
+	Recv       string // receiver name
+	I          int    // integration index within the receiver
+	Tau        int64  // flush: notify.Now(ctx)
+	FlushID    uint64
+	Alerts     []AlertObs
+	Outcome    Outcome
+	Reason     string
+	Firing     []uint64
+	Resolved   []uint64
+	Ok         bool
 	Ts, Exp    int64  // merge: the delivered entry's timestamp and expiry
 	Suppressed []bool // flush: per alert, the instance's own mute verdict (inhibitor or silencer) at flush time
 }
@@ -96,15 +100,15 @@ type Sim struct {
 	Reg       *prometheus.Registry
 	Wait      func() time.Duration
 
-	NfMtx sync.Mutex // serialises notification-log operations with their records
-	mtx   sync.Mutex
-	recs  []Rec
-	calls map[string]int // per integration key: number of Notify calls so far
-	specs map[string][]IntSpec
-	subIt interface{ Close() }
-	subWG sync.WaitGroup
-	subDone chan struct{}
-	cancel context.CancelFunc
+	NfMtx     sync.Mutex // serialises notification-log operations with their records
+	mtx       sync.Mutex
+	recs      []Rec
+	calls     map[string]int // per integration key: number of Notify calls so far
+	specs     map[string][]IntSpec
+	subIt     interface{ Close() }
+	subWG     sync.WaitGroup
+	subDone   chan struct{}
+	cancel    context.CancelFunc
 	Retention time.Duration
 }
 
@@ -418,4 +422,22 @@ func (s *Sim) PutAlert(a *alert.Alert) {
 	s.recs[idx].Kind = "publish"
 	s.recs[idx].Alerts = []AlertObs{ObsOf(stored)}
 	s.mtx.Unlock()
+}
+
+// Bubble runs f in a synctest bubble, but gives up after a real-time limit: under Go 1.25 a sync.WaitGroup.Wait inside
+// a bubble is very occasionally not registered as durably blocking, which freezes the bubble's virtual clock for
+// good (seen about once in 10^4..10^5 flushes, independent of the code under test). A frozen bubble is abandoned
+// (its goroutines leak until the process ends) and the caller skips the scenario. Returns false when abandoned.
+func Bubble(t *testing.T, limit time.Duration, f func(t *testing.T)) bool {
+	done := make(chan struct{})
+	go func() {
+		defer close(done)
+		synctest.Test(t, f)
+	}()
+	select {
+	case <-done:
+		return true
+	case <-time.After(limit):
+		return false
+	}
 }
